@@ -23,9 +23,9 @@ func init() {
 
 func runC11(p *Prog, r *Report) {
 	r.Min("C11.R1", 4)
-	r.Min("C11.R2", 4)
+	r.Min("C11.R2", 4+3)
 	r.Min("C11.R3", 3*2)
-	r.Min("C11.R4", 3)
+	r.Min("C11.R4", 3+4)
 	r.Min("C11.R5", 3+2)
 	arpPk := p.Pkg("pkg/scan/arp")
 	if arpPk == nil {
@@ -34,9 +34,37 @@ func runC11(p *Prog, r *Report) {
 	}
 	checkCacheSchema(p, r)
 	checkCacheLoader(p, r)
+	// the loader's error reaches the caller: no deferred literal on the way from the option parser to
+	// FillCache replaces it (a read fault or damaged line would otherwise start the scan with a partial cache)
+	{
+		fill := p.Func("pkg/scan/arp", "FillCache")
+		n := 0
+		for _, fn := range p.SrcFuncs() {
+			if fill == nil || !p.staticReach(fn)[fill] {
+				continue
+			}
+			n++
+			bad := deferClobbersError(p, fn)
+			r.Check(len(bad) == 0, "C11.R2", FuncName(fn)+"/error-not-clobbered", p.Pos(fn.Pos()), "the error of loading the ARP cache is what the function returns (no deferred assignment replaces it)", strings.Join(bad, "; "))
+		}
+		if n < 3 {
+			r.Viol("C11.R2", "loader chain", "-", "FillCache and the option-parser functions that reach it are found", fmt.Sprint(n))
+		}
+	}
 	checkCacheLocking(p, r)
 	checkResolver(p, r)
 	checkResolverWiring(p, r)
+	// the MAC resolved for a request is the MAC of that request's frame: the fillers, shared by all
+	// packet-building workers, keep no link-layer state between calls (C07.R5 re-evaluated)
+	sub := NewReport("C11", "quick")
+	runC07(p, sub)
+	for _, o := range sub.Obs {
+		if o.Rule == "C07.R5" && strings.HasSuffix(o.Construct, ".Fill") {
+			o2 := *o
+			o2.Rule = "C11.R4"
+			r.Obs = append(r.Obs, &o2)
+		}
+	}
 }
 
 // ---- R1 ----
